@@ -100,6 +100,8 @@ type pathState struct {
 	varTag []string
 	choices []uint64
 	unchecked bool
+	choiceTags []string
+	pcSet     map[uint32]bool
 	nchoice int
 	reach  map[string]bool
 	checks int
